@@ -281,11 +281,42 @@ class C12(Check):
         raise ValueError(k)
 
     def portnos(self, case):
+        if case.get("initports"): return [d["no"] for d in self.initports(case)]
         return case.get("portnos") or list(range(1, case.get("nports", NPORTS) + 1))
+
+    @staticmethod
+    def initports(case):
+        """the port descriptions the switch is built from, in the order in which they enter it: the ones handed to the constructor
+        (`ports=[...]`), then the ones handed to add_port() (via `add`; `readd`: the number was added with other bits and deleted
+        again first)"""
+        ps = case["initports"]
+        return [d for d in ps if d.get("via", "ctor") == "ctor"] + [d for d in ps if d.get("via", "ctor") != "ctor"]
+
+    def mk_phy(self, d, config=None, state=None):
+        of = self.of
+        p = of.ofp_phy_port()
+        p.port_no = d["no"]; p.hw_addr = self.EthAddr(self.hw(d["no"])); p.name = "p%d" % d["no"]
+        p.config = d["config"] if config is None else config
+        p.state = d["state"] if state is None else state
+        p.curr = p.advertised = p.supported = p.peer = of.OFPPF_10MB_HD
+        return p
 
     def impl(self, case):
         of = self.of
-        if case.get("portnos"):
+        if case.get("initports"):
+            ps = self.initports(case)
+            ctor = [self.mk_phy(d) for d in ps if d.get("via", "ctor") == "ctor"]
+            if case.get("ports_as") == "tuple": ctor = tuple(ctor)
+            node = self.swnet.SwitchNode(dpid=1, ports=ctor, max_buffers=case.get("bufs", 4096), miss_send_len=128)
+            for d in ps:
+                via = d.get("via", "ctor")
+                if via == "ctor": continue
+                if via == "readd":                  # the same number was there before, with every handled bit the other way round
+                    node.sw.add_port(self.mk_phy(d, config=(d["config"] ^ HANDLED) & 0x7f, state=d["state"] ^ 1))
+                    node.sw.delete_port(d["no"])
+                node.sw.add_port(self.mk_phy(d))
+            node.drain()
+        elif case.get("portnos"):
             node = self.swnet.SwitchNode(dpid=1, ports=0, max_buffers=case.get("bufs", 4096), miss_send_len=128)
             for no in case["portnos"]: node.sw.add_port(node.sw.generate_port(no, name="p%d" % no))
             node.drain()
@@ -358,6 +389,10 @@ class C12(Check):
             elif k == "link":
                 p = sw.ports[op["port"]]
                 p.state = (p.state | 1) if op["down"] else (p.state & ~1)
+            elif k == "addport":                        # a port joins the running switch (oracle only: the model's port table is fixed)
+                try: sw.add_port(self.mk_phy(op))
+                except Exception as e: st = "raise:" + type(e).__name__
+                node.drain()
             else:
                 st, _, _ = node.send(mk_msg(op))
             if st.startswith("raise:"): raised.append(st[6:])
@@ -388,7 +423,10 @@ class C12(Check):
 
     def model_request(self, case):
         if case.get("oracle_only"): return None
-        ports = [{"no": i, "hw": self.hw(i).hex(), "config": PC_NO_STP, "state": 0} for i in self.portnos(case)]
+        if case.get("initports"):
+            ports = [{"no": d["no"], "hw": self.hw(d["no"]).hex(), "config": d["config"], "state": d["state"]} for d in self.initports(case)]
+        else:
+            ports = [{"no": i, "hw": self.hw(i).hex(), "config": PC_NO_STP, "state": 0} for i in self.portnos(case)]
         return {"var": dict(self.variant), "ports": ports, "bufs": case.get("bufs", 4096), "ops": self._flat(case)[0]}
 
     @staticmethod
@@ -476,6 +514,8 @@ class C12(Check):
             st["rules"].append(op); return [], cfg, None
         if k == "link":
             return [], [(n, c, (s | 1) if op["down"] else (s & ~1)) if n == op["port"] else (n, c, s) for n, c, s in cfg], None
+        if k == "addport":                                     # announced to the controller as it was handed in; its rules apply from now on
+            return [{"k": "port_status", "port": op["no"], "config": op["config"], "state": op["state"]}], cfg + [(op["no"], op["config"], op["state"])], None
         if k == "stats":
             sel = [n for n, c, s in cfg if op.get("port") is None or n == op["port"]]
             return [{"k": "stats", "ports": [{"no": n, "rx_p": st["erx"].get(n, [0, 0])[0], "rx_b": st["erx"].get(n, [0, 0])[1],
@@ -521,6 +561,16 @@ class C12(Check):
         if obs["exc"] is not None:
             return "operation %d (%s) raised %s" % (len(obs["outs"]), case["ops"][len(obs["outs"])]["op"], obs["exc"])
         canon = bool(case.get("canon"))
+        if case.get("initports"):
+            # the rules of the property apply to the ports as they were handed to the switch, from the first frame on: the
+            # administrative bits are the administrator's, and a port that came with its link down has its link down
+            first = obs["cfg"][0] if obs["cfg"] else [(p["no"], p["config"], p["state"]) for p in obs["ports"]]
+            have = dict((n, (c, s)) for n, c, s in first)
+            for d in self.initports(case):
+                if d["no"] not in have: return "port %d was handed to the switch (%s) and is not in its port table" % (d["no"], d.get("via", "ctor"))
+                c, s = have[d["no"]]
+                if c != d["config"] or (d["state"] & 1 and not s & 1):
+                    return "port %d enters the switch (%s) with config %#x state %#x and is held with config %#x state %#x" % (d["no"], d.get("via", "ctor"), d["config"], d["state"], c, s)
         st = {"rules": [], "miss": 128, "flags": 0, "free": case.get("bufs", 4096), "bufstore": [], "etx": {}, "erx": {}}
         tx = {}; rx = {}
         l4rw = any(a["a"] in ("set_nw_src", "set_nw_dst", "set_tp_src", "set_tp_dst") for o2 in flat if "acts" in o2 for a in o2["acts"])
@@ -563,7 +613,7 @@ class C12(Check):
             # before they are compared: the per-port sequences and the controller-bound sequence each keep their own order (stable sort).
             chan = lambda o: (0, o["port"]) if o["k"] == "frame" else (1, 0)
             got = sorted(got, key=chan); exp = sorted(exp, key=chan)
-            if sorted(cfg) != sorted(real_after) and op["op"] in ("portmod", "batch", "link"):
+            if sorted(cfg) != sorted(real_after) and op["op"] in ("portmod", "batch", "link", "addport"):
                 return "op %d: port_mod/link sequence leaves ports (no, config, state) %s, expected %s" % (i, sorted(real_after), sorted(cfg))
             where, frame, ingress = infos[-1] if infos else (op["op"], b"", None)
             if op["op"] == "rx" and st.get("dropped") and got:
@@ -637,6 +687,7 @@ class C12(Check):
         ks = kinds(acts)
         if "reply" in failure and "expected" in failure: return "readout:" + failure.split(": ", 1)[1].split(" ")[0] + "-reply-stale-or-wrong"
         if "port_mod/link sequence" in failure: return "port_mod:sequence-leaves-wrong-config"
+        if "handed to the switch" in failure or "enters the switch" in failure: return "ports:initial-description-not-kept"
         if ": message {" in failure: return "messages:unexpected-error-or-port-status"
         if "raised" in failure:
             exc = failure.rsplit(" ", 1)[-1]
@@ -690,6 +741,11 @@ class C12(Check):
 
     def shrink_candidates(self, case):
         ops = case["ops"]
+        for i, d in enumerate(case.get("initports") or []):          # one port back to the default description / to the constructor
+            if d["config"] != PC_NO_STP or d["state"]:
+                c = copy.deepcopy(case); c["initports"][i].update(config=PC_NO_STP, state=0); yield c
+            if d.get("via", "ctor") != "ctor":
+                c = copy.deepcopy(case); c["initports"][i]["via"] = "ctor"; yield c
         for i in range(len(ops)):
             c = copy.deepcopy(case); del c["ops"][i]; yield c
         for i, op in enumerate(ops):
@@ -1111,9 +1167,111 @@ class C12(Check):
             cases.append({"nports": 4, "witness": name, "ops": setup + [{"op": "pktout", "in_port": ing, "data": small, "acts": acts}], "wf": True, "canon": True})
         cases.append({"nports": 4, "witness": "strip_vlan_c122_defect", "canon": True,
                       "ops": setup + [{"op": "pktout", "in_port": 1, "data": "66778899aabb00112233445581000005", "acts": [{"a": "strip_vlan"}, {"a": "output", "port": 4, "max_len": 0}]}]})
+        cases += self.corpus_initports(tcp, tcpv, udp, stp)
+        cases += self.corpus_dst_sweep(tcp, udp)
+        return cases
+
+    # (v) HARDENING item 16 — the port descriptions the switch STARTS with are an input: every combination of the six handled
+    #     config bits (NO_STP alternating) and of the LINK_DOWN state bit — including the ones a port_mod could never produce
+    #     (PORT_DOWN with the link up, link down without PORT_DOWN) — on each port, handed to the constructor, to add_port(),
+    #     or to add_port() after the same number was deleted with the opposite bits.  The rules apply from the FIRST frame;
+    #     a port_mod that re-asserts the same bits (no change) and one that toggles PORT_DOWN follow, with the traffic again.
+    def corpus_initports(self, tcp, tcpv, udp, stp):
+        out1 = lambda p: {"a": "output", "port": p, "max_len": 64}
+        allout = [out1(P_FLOOD), out1(1), out1(2), out1(3), out1(P_ALL), out1(P_IN_PORT)]
+        po = lambda ing, fr: {"op": "pktout", "in_port": ing, "data": fr, "acts": allout}
+        bits6 = (PC_PORT_DOWN, PC_NO_RECV, PC_NO_RECV_STP, PC_NO_FLOOD, PC_NO_FWD, PC_NO_PACKET_IN)
+        cases, k = [], 0
+        for combo in range(64):
+            c0 = sum(b for i, b in enumerate(bits6) if combo >> i & 1)
+            for s in (0, 1):
+                for target in (1, 2, 3):
+                    for via in ("ctor", "add"):
+                        k += 1
+                        c = c0 | (PC_NO_STP if k % 3 else 0)
+                        init = [{"no": n, "config": PC_NO_STP, "state": 0, "via": "ctor"} for n in (1, 2, 3)]
+                        init[target - 1] = {"no": target, "config": c, "state": s, "via": via if k % 8 else "readd"}
+                        other = 1 if target != 1 else 2
+                        ops = [po(other, tcp), {"op": "flow", "in_port": None, "acts": [out1(P_FLOOD), {"a": "set_nw_tos", "v": 0x20}, out1(P_IN_PORT)]},
+                               {"op": "rx", "port": other, "data": udp}, {"op": "rx", "port": target, "data": tcpv}, {"op": "rx", "port": target, "data": stp},
+                               {"op": "portmod", "port": target, "hw": self.hw(target).hex(), "config": c, "mask": 0x7f}, po(target, udp), po(other, tcp),
+                               {"op": "portmod", "port": target, "hw": self.hw(target).hex(), "config": ~c & PC_PORT_DOWN, "mask": PC_PORT_DOWN}, po(other, tcp),
+                               {"op": "link", "port": target, "down": False}, po(other, udp), {"op": "features"}, {"op": "stats", "port": None}]
+                        cases.append({"initports": init, "ops": ops, "wf": True, "canon": True, "why": "initial port description %s config %#x state %d" % (via, c, s)})
+        # all three ports with descriptions of their own (tuple instead of list for the constructor), other port numbers, and a
+        # port that joins the running switch between two uses of the same frame (oracle only: the model's port table is fixed)
+        import random
+        rng = random.Random(1212)
+        for i in range(48):
+            nos = [1, 2, 3] if i % 3 else rng.choice([[1, 300, 0xfeff], [257, 256, 255], [7, 5, 6]])
+            init = [{"no": n, "config": rng.randint(0, 127), "state": rng.randint(0, 1), "via": rng.choice(["ctor", "ctor", "add", "readd"])} for n in nos]
+            outs = [out1(P_FLOOD)] + [out1(n) for n in nos] + [out1(P_ALL), out1(P_IN_PORT)]
+            ops = [{"op": "pktout", "in_port": ing, "data": tcp, "acts": outs} for ing in nos + [P_NONE]]
+            ops += [{"op": "flow", "in_port": None, "acts": [out1(P_ALL)]}] + [{"op": "rx", "port": n, "data": fr} for n in nos for fr in (udp, stp)] + [{"op": "features"}, {"op": "stats", "port": None}]
+            cases.append({"initports": init, "ports_as": "tuple" if i % 2 else "list", "ops": ops, "wf": True, "canon": True})
+        for combo in range(128):
+            c, s = combo & 0x7f, combo >> 3 & 1
+            new = {"op": "addport", "no": 4, "config": c, "state": s}
+            o4 = [out1(P_FLOOD), out1(4), out1(P_ALL), out1(P_IN_PORT)]
+            ops = [{"op": "pktout", "in_port": 1, "data": tcp, "acts": o4}, {"op": "flow", "in_port": None, "acts": [out1(P_FLOOD)]}, {"op": "rx", "port": 2, "data": udp},
+                   new, {"op": "pktout", "in_port": 1, "data": tcp, "acts": o4}, {"op": "rx", "port": 2, "data": udp}, {"op": "rx", "port": 4, "data": udp},
+                   {"op": "rx", "port": 4, "data": stp}, {"op": "pktout", "in_port": 4, "data": tcp, "acts": o4}, {"op": "features"}, {"op": "stats", "port": None}]
+            cases.append({"oracle_only": True, "ops": ops, "canon": True, "why": "port joins a running switch config %#x state %d" % (c, s)})
+        return cases
+
+    # (w) "is this an 802.1D spanning-tree frame" is a question about ONE address.  Destination addresses over the whole reserved
+    #     block 01:80:c2:00:00:00..0f (pause, LACP, 802.1X, LLDP ...), its neighbours (..:10, ..:1f, the GARP block ..:20/21), every
+    #     single-bit neighbour of 01:80:c2:00:00:00, other multicast / broadcast / unicast — against every combination of NO_RECV and
+    #     NO_RECV_STP (set in the initial description or by port_mod), through a flow entry and through a table miss, with and
+    #     without packet_data; and the protocols' own frame formats (LLC BPDU, LLDP, EAPOL: oracle only — outside the packet model)
+    SWEEP_DSTS = ["0180c20000%02x" % i for i in range(16)] + ["0180c2000010", "0180c200001f", "0180c2000020", "0180c2000021", "0180c20000ff", "0180c2000100",
+                 "0180c2010000", "0180c2000000", "ffffffffffff", "01005e000001", "333300000001", "01000ccccccd", "01000ccccccc", "66778899aabb", "020000010001",
+                 "000000000000", "0180c3000000", "0080c2000000", "0100c2000000"] + \
+                 [(int.from_bytes(STP_MAC, "big") ^ (1 << b)).to_bytes(6, "big").hex() for b in range(48)]
+
+    def corpus_dst_sweep(self, tcp, udp):
+        out1 = lambda p: {"a": "output", "port": p, "max_len": 64}
+        cases = []
+        src = bytes.fromhex("001122334455")
+        bodies = [lambda d: eth_frame(d, src, 0x88b5, bytes(range(20))), lambda d: d + bytes.fromhex(udp)[6:], lambda d: d + bytes.fromhex(tcp)[6:],
+                  lambda d: eth_frame(d, src, 0x8808, bytes([0, 1, 0xff, 0xff]) + bytes(42)),            # 802.3x pause
+                  lambda d: eth_frame(d, src, 0x8809, bytes([1, 1]) + bytes(range(40))),                 # slow protocols (LACP)
+                  lambda d: eth_frame(d, src, 0x88b5, bytes(range(9)), 0x2005)]
+        dsts = self.SWEEP_DSTS
+        chunk = 14
+        k = 0
+        for rc in (0, PC_NO_RECV, PC_NO_RECV_STP, PC_NO_RECV | PC_NO_RECV_STP):
+            for extra in (0, PC_NO_FLOOD | PC_NO_FWD):
+                for i in range(0, len(dsts), chunk):
+                    k += 1
+                    c = rc | extra | PC_NO_STP
+                    ops = [{"op": "flow", "in_port": 1, "acts": [out1(P_FLOOD), out1(P_IN_PORT)]}]
+                    for j, d in enumerate(dsts[i:i + chunk]):
+                        fr = bodies[(j + k) % len(bodies)](bytes.fromhex(d)).hex()
+                        ops.append({"op": "rx", "port": 1, "data": fr})                  # a flow entry floods it
+                        ops.append({"op": "rx", "port": 2, "data": fr})                  # a table miss reports it
+                        if (j + k) % 3 == 0: ops[-1]["nopd"] = True
+                    ops.append({"op": "stats", "port": None})
+                    if k % 2:
+                        init = [{"no": 1, "config": c, "state": 0, "via": "ctor"}, {"no": 2, "config": c, "state": 0, "via": "add"}, {"no": 3, "config": PC_NO_STP, "state": 0, "via": "ctor"}]
+                        cases.append({"initports": init, "ops": ops, "wf": True, "canon": True})
+                    else:
+                        cases.append({"ops": self.portmods([c, c, None]) + ops, "wf": True, "canon": True})
+        # the protocols that live in the block, in their own frame formats
+        bpdu = lambda d: d + src + struct.pack("!H", 38) + bytes([0x42, 0x42, 0x03]) + bytes(35)
+        lldp = lambda d: eth_frame(d, src, 0x88cc, bytes([0x02, 0x07, 0x04]) + src + bytes([0x04, 0x02, 0x07, 0x31, 0x06, 0x02, 0x00, 0x78, 0x00, 0x00]))
+        eapol = lambda d: eth_frame(d, src, 0x888e, bytes([1, 1, 0, 0]))
+        for rc in (0, PC_NO_RECV, PC_NO_RECV_STP, PC_NO_RECV | PC_NO_RECV_STP):
+            ops = self.portmods([rc | PC_NO_STP, rc | PC_NO_STP, None]) + [{"op": "flow", "in_port": 1, "acts": [out1(P_FLOOD)]}]
+            for mk in (bpdu, lldp, eapol):
+                for d in ("0180c2000000", "0180c200000e", "0180c2000003", "0180c2000001", "0180c2000002", "ffffffffffff"):
+                    ops.append({"op": "rx", "port": 1, "data": mk(bytes.fromhex(d)).hex()})
+                    ops.append({"op": "rx", "port": 2, "data": mk(bytes.fromhex(d)).hex()})
+            cases.append({"oracle_only": True, "ops": ops + [{"op": "stats", "port": None}]})
         return cases
 
     def generate(self, rng, tier):
+        import random
         n = 2500 if tier == "quick" else 100000
         for i in range(n):
             r = rng.random()
@@ -1155,9 +1313,23 @@ class C12(Check):
                         out.append(o)
                 if run: out.append({"op": "batch", "ops": run} if len(run) > 1 else run[0])
                 ops = out
+            rgen = random.Random(rng.getrandbits(32))     # (own stream: the draws above stay what they were)
+            if rgen.random() < 0.2:                        # received frames addressed into / next to the bridge group block
+                for o in ops:
+                    if o["op"] == "rx" and rgen.random() < 0.7:
+                        d = rgen.choice(self.SWEEP_DSTS) if rgen.random() < 0.5 else "0180c20000%02x" % rgen.randint(0, 0x2f)
+                        o["data"] = d + o["data"][12:]
             case = {"ops": ops, "shape": shape}
             if r2 >= 0.27 and r2 < 0.37:                   # port numbers above 256 / next to OFPP_MAX
                 case = self.remap(case, {2: 300, 3: 0xfeff} if rng.random() < 0.5 else {1: 257, 2: 256, 3: 0xfeff})
+            if rgen.random() < 0.3:                        # the ports START with descriptions of their own (any bits, any state)
+                case["initports"] = [{"no": n, "config": rgen.choice([PC_NO_STP, rgen.randint(0, 127), rgen.randint(0, 127), rgen.choice([1, 3, 4, 8, 12, 16, 32, 64])]),
+                                      "state": rgen.choice([0, 0, 1]), "via": rgen.choice(["ctor", "ctor", "add", "readd"])} for n in self.portnos(case)]
+                case.pop("portnos", None)
+                if rgen.random() < 0.5:                    # ... and nothing but those (no port_mod before the first frame)
+                    lead = 0
+                    while lead < len(case["ops"]) and case["ops"][lead]["op"] == "portmod": lead += 1
+                    case["ops"] = case["ops"][lead:] or case["ops"]
             if rng.random() < 0.15: case["bufs"] = rng.choice([0, 1, 2, 3])
             if can: case["canon"] = True
             if wf and not wild: case["wf"] = True
